@@ -23,6 +23,10 @@ UNVERSIONED = {"type": "marking-definition", "spec_version": "2.1", "id": "marki
                "created": "2019-01-01T00:00:00.000Z", "definition_type": "statement", "definition": {"statement": "s"}}
 
 
+# an unversioned object of the SAME type as the dict-kept versioned ones (no modified: stored flat, next to the per-id directories)
+UNVERSIONED2 = {"type": "x-acme-widget", "spec_version": "2.1", "id": "x-acme-widget--911b2d2d-f010-4473-83ec-1edf84858f4c", "x_payload": {"k": [0]}}
+
+
 def ver(i, m):
     id_ = IDS[i]
     t = id_.split("--")[0]
@@ -76,6 +80,8 @@ def run(adds, with_unversioned, save_load):
         if with_unversioned:
             fstore.add(dict(UNVERSIONED))
             mstore.add(dict(UNVERSIONED))
+            fstore.add(dict(UNVERSIONED2))
+            mstore.add(dict(UNVERSIONED2))
         for (i, m, form) in adds:
             d = ver(i, m)
             try:
@@ -102,16 +108,19 @@ def run(adds, with_unversioned, save_load):
                     return False
                 if sorted(norm(o) for o in s.all_versions(IDS[q])) != sorted(norm(ver(q, m)) for m in want):
                     return False
-            everything = sorted(norm(ver(i, m)) for (i, m) in model) + ([norm(UNVERSIONED)] if with_unversioned else [])
+            everything = sorted(norm(ver(i, m)) for (i, m) in model) + ([norm(UNVERSIONED), norm(UNVERSIONED2)] if with_unversioned else [])
             if sorted(norm(o) for o in s.query()) != sorted(everything):
                 return False
             res = sorted(norm(o) for o in s.query([Filter("type", "=", "identity"), Filter("modified", ">", MODS[0])]))
             if res != sorted(norm(ver(i, m)) for (i, m) in model if i in (0, 1) and m > 0):
                 return False
             if with_unversioned:
-                g = s.get(UNVERSIONED["id"])
-                if g is None or norm(g) != norm(UNVERSIONED):
-                    return False
+                for u in (UNVERSIONED, UNVERSIONED2):
+                    g = s.get(u["id"])
+                    if g is None or norm(g) != norm(u):
+                        return False
+                    if [norm(o) for o in s.all_versions(u["id"])] != [norm(u)]:
+                        return False
         return True
     finally:
         F.os, F.io = saved
